@@ -180,3 +180,84 @@ Fixpoint join_with (sep : bytes) (l : list bytes) : bytes :=  (* strings.Join *)
   end.
 
 Definition upper_byte (b : byte) : byte := if (97 <=? b) && (b <=? 122) then b - 32 else b.
+
+(* ------------------------------------------------------------------ *)
+(* Input streams (DESIGN.md section 3).  A run of an io.Reader is the
+   bytes it delivered and the terminal condition observed after the last
+   delivered byte: a clean EOF or a non-EOF error.  (Whether the reader
+   would fail once or forever makes no difference to any reader of the
+   library: each consults the terminal condition once and stops.)       *)
+Inductive term : Type := TEOF | TErr.
+
+(* What an iterator yields: a record or an error. *)
+Inductive item (A : Type) : Type :=
+| Rec (a : A)
+| ErrItem.
+Arguments Rec {A} a.
+Arguments ErrItem {A}.
+
+Definition v_item {A} (f : A -> val) (i : item A) : val :=
+  match i with Rec a => VL [VI 0; f a] | ErrItem => VL [VI 1] end.
+Definition v_items {A} (f : A -> val) (l : list (item A)) : val := VL (map (v_item f) l).
+Definition as_term (v : val) : option term :=
+  match v with VI 0 => Some TEOF | VI 1 => Some TErr | _ => None end.
+
+(* dropCR of bufio.ScanLines: one trailing CR is removed *)
+Fixpoint drop_cr (l : bytes) : bytes :=
+  match l with
+  | [] => []
+  | [c] => if c =? 13 then [] else [c]
+  | c :: r => c :: drop_cr r
+  end.
+
+(* the pieces between LFs; the last piece only if it is non-empty *)
+Fixpoint lines_tail (ps : list bytes) : list bytes :=
+  match ps with
+  | [] => []
+  | [p] => match p with [] => [] | _ => [p] end
+  | p :: r => p :: lines_tail r
+  end.
+
+(* bufio.Scanner with ScanLines: the tokens it hands out for delivered bytes
+   [s].  The same tokens are produced whether the stream ends with EOF or with
+   an error (the Scanner passes atEOF=true to the split function in both cases,
+   so a final unterminated line is a token); Err() then reports the terminal. *)
+Definition scan_tokens (s : bytes) : list bytes := map drop_cr (lines_tail (split_on LF s)).
+
+(* bufio.Reader.ReadString('\n'): the complete lines (LF removed) and the
+   unterminated tail that is returned together with the terminal condition. *)
+Definition rs_lines (s : bytes) : list bytes * bytes :=
+  let ps := split_on LF s in (removelast ps, last ps []).
+
+(* ------------------------------------------------------------------ *)
+(* float64 values outside the alignment scores (SAM 'f' tags, Newick
+   distances, smtext scores) are identified by their canonical text
+   strconv.FormatFloat(x,'g',-1,64) ("NaN", "+Inf", "-0", "1e-07" ...).
+   Parsing and formatting are strconv's: they enter the model as tables
+   supplied with each correspondence case (the harness fills them with the
+   answers of the real strconv for every candidate token of the case), and as
+   Section hypotheses in the theorems.                                    *)
+Definition F := bytes.
+Record foracle : Type := { f_parse : list (bytes * F); f_fmt : list (F * bytes) }.
+
+Definition alookup {B} (k : bytes) (l : list (bytes * B)) : option B :=
+  match find (fun p => beqb (fst p) k) l with Some p => Some (snd p) | None => None end.
+
+Definition parseF (o : foracle) (t : bytes) : option F := alookup t (f_parse o).
+Definition fmtF (o : foracle) (x : F) : bytes :=
+  match alookup x (f_fmt o) with Some t => t | None => [] end.
+Definition is_zeroF (x : F) : bool := beqb x [48] || beqb x [45; 48].   (* "0", "-0" *)
+
+Definition as_pairs (v : val) : option (list (bytes * bytes)) :=
+  match v with
+  | VL l => all_some (map (fun e => match e with VL [VB a; VB b] => Some (a, b) | _ => None end) l)
+  | _ => None
+  end.
+Definition as_foracle (v : val) : option foracle :=
+  match v with
+  | VL [p; f] => match as_pairs p, as_pairs f with
+                 | Some p', Some f' => Some {| f_parse := p'; f_fmt := f' |}
+                 | _, _ => None
+                 end
+  | _ => None
+  end.
